@@ -3,6 +3,7 @@ package world
 import (
 	"context"
 	"encoding/hex"
+	"errors"
 	"fmt"
 	"github.com/pingcap/kvproto/pkg/kvrpcpb"
 	"github.com/tikv/client-go/v2/tikvrpc"
@@ -81,10 +82,12 @@ func (w *World) newEngine(kind string) (storage.KvStorage, bool, error) {
 		// timestamp oracle and caches, and the adapter goes round them
 		var stores []*tikv.KVStore
 		var hijack func(tikv.Client) tikv.Client
-		if w.Sc != nil && (w.Sc.Extra["tikv_scan_fault"] > 0 || w.Sc.Extra["tikv_get_fault"] > 0) {
+		if w.Sc != nil && (w.Sc.Extra["tikv_scan_fault"] > 0 || w.Sc.Extra["tikv_get_fault"] > 0 || w.Sc.Extra["tikv_hold_secondary_commits"] > 0) {
 			// a fault below the adapter: the n-th scan request to the cluster is answered without a body,
 			// or the n-th point read with a key error
-			fc := &scanFaultClient{failAt: int32(w.Sc.Extra["tikv_scan_fault"]), getFailAt: int32(w.Sc.Extra["tikv_get_fault"]), w: w}
+			fc := &scanFaultClient{failAt: int32(w.Sc.Extra["tikv_scan_fault"]), getFailAt: int32(w.Sc.Extra["tikv_get_fault"]), w: w,
+				holdSecondary: w.Sc.Extra["tikv_hold_secondary_commits"] > 0, committed: map[uint64]bool{}, release: make(chan struct{})}
+			w.closers = append(w.closers, func() { close(fc.release) }) // before the stores are closed: they wait for their committers
 			hijack = func(c tikv.Client) tikv.Client { return &scanFaultClientConn{Client: c, f: fc} }
 		}
 		for i := 0; i < 3; i++ {
@@ -108,6 +111,12 @@ type scanFaultClient struct {
 	getFailAt int32
 	gets      int32
 	w         *World
+	// holdSecondary: the commit requests that follow a transaction's first one (its primary key's) never
+	// arrive: the transaction is acknowledged, the locks on its other keys stay until a reader resolves them
+	holdSecondary bool
+	mu            sync.Mutex
+	committed     map[uint64]bool
+	release       chan struct{}
 }
 
 type scanFaultClientConn struct {
@@ -120,6 +129,23 @@ func (c *scanFaultClientConn) SendRequest(ctx context.Context, addr string, req 
 		if atomic.AddInt32(&c.f.scans, 1) == c.f.failAt {
 			c.f.w.TiKVScanFaultFired++
 			return &tikvrpc.Response{}, nil
+		}
+	}
+	if req.Type == tikvrpc.CmdCommit && c.f.holdSecondary {
+		if cr, ok := req.Req.(*kvrpcpb.CommitRequest); ok {
+			c.f.mu.Lock()
+			first := !c.f.committed[cr.StartVersion]
+			c.f.committed[cr.StartVersion] = true
+			c.f.mu.Unlock()
+			if !first {
+				c.f.w.TiKVSecondaryCommitsHeld++
+				select {
+				case <-c.f.release: // the run is over
+					return nil, errors.New("simulated network: connection closed")
+				case <-ctx.Done():
+					return nil, ctx.Err()
+				}
+			}
 		}
 	}
 	if req.Type == tikvrpc.CmdGet && c.f.w.TiKVScanFaultArmed && c.f.getFailAt > 0 {
